@@ -41,6 +41,13 @@ CHECKS["C10"] = dict(cat="model_checking", tech="TLC model checking of LpmImpl.t
 CHECKS["C11"] = dict(cat="model_checking", tech="TLC model checking of Wrs.tla (reservoir of db/wrs.go: Sound, Exact, TopK for all weight vectors / max-answer / draw tuples of a grid; Proportional by counting) + real handlers over generated candidate sets judged by Resolve.tla (SelectionOk, AdditionalOk) + seeded 20000-draw frequency vectors judged by TLC within 6 sigma (ResolveTrace JudgeFreq) + concurrent draws under the Go race detector",
     text="The selection algorithm is model-checked on a grid (bounds, soundness, top-k, proportionality by counting); the real server is asked address / MX / delegation queries over generated candidate sets (weights incl. 0 and 2^32-1, locations, wildcards, max-answer 1..8) with every response judged by TLC for cardinality, non-repetition, visibility and weight-0 exclusion; proportionality is decided on seeded 20000-draw frequency vectors per backend; concurrent use of the shared generator runs under the race detector.",
     note=SEM_NOTE + " Proportionality: statistical with a deterministic seed, resolution about 2-3 % absolute; max-answer > 1 inclusion probabilities are not judged.", ref="4.7")
+STORE_NOTE = "Bounded models (4-5 lines, 2-3 workers, batch size 1-2, <=3 executors / buckets); the real pipeline's goroutine schedules are whatever the runtime produces on inputs built to make batches and buckets collide; reference = the sequential codec the property names; trusts TLC, RocksDB, the dump code of the harness (self-test: a dropped value must be rejected)."
+CHECKS["C07"] = dict(cat="model_checking", tech="TLC model checking of Compile.tla (scanner / workers / results channel / CDB, batch and builder sinks: all interleavings; lossless, fails iff a line is rejected, terminates) + real compilations over the settings grid dumped completely + TLC comparison of dump and sequential-codec reference as key -> multiset (StoreTrace)",
+    text="Every interleaving of the bounded pipeline model (incl. concurrent read-modify-write batches under the write mutex and bucket splits that keep equal keys together) ends with the multiset-by-key of the codec output; the real CDB and RocksDB compilers are run over workers x builder|batches x batch size x parallelism x v1|v2 on small, hot-key, >75000-record (runs of equal keys on the bucket boundaries) and rejected-line files, and TLC compares every complete dump with what the sequential codec emits.",
+    note=STORE_NOTE, ref="6.2")
+CHECKS["C08"] = dict(cat="model_checking", tech="TLC model checking of Diff.tla (ApplyDiff(Compile(A), A->B) = Compile(B) for all bags of lines, both orders; refused diff is a no-op) + real Preprocess / compile / rdb.ApplyDiff chains dumped completely + TLC comparison with a fresh compile (StoreTrace)",
+    text="The diff theorem is checked on the property layer for every pair of small files (repeated lines, one pair from several lines); on the real code chains of 2-5 successive diffs in forward / reverse / shuffled order, v1 and v2 keys, with record, duplicate and subnet (range-point) changes are applied with rdb.ApplyDiff and every resulting database is dumped and compared by TLC with a fresh compile; eight classes of diffs that must be refused are checked to fail and leave the dump unchanged.",
+    note=STORE_NOTE, ref="6.3")
 NA = {}
 props = [json.loads(l)["id"] for l in open(os.path.join(V, "properties.jsonl"))]
 m = {
